@@ -23,12 +23,12 @@ func init() {
 	Registry["C12"] = &Check{
 		Spec: func(tier string) evid.Spec {
 			return evid.Spec{ID: "C12", Level: "exploration", Exhaustive: true,
-				Rule: "plane 1 (direct call of the log-backed accounter with a recording sink and Response): every flag octet x seq{1,3,5} x enum profiles; plane 2: every 4-tuple of content tokens " +
+				Rule: "plane 1 (direct call of the log-backed accounter with a recording sink and Response): every flag octet x seq{1,3,5} x enum profiles; plane 1b: every truncation and every raised length octet (+1,+2,+10,+200) of 8 well-formed requests (0..3 arguments) - bodies whose announced field lengths exceed the octets that follow must be answered ERROR with no sink record; plane 2: every 4-tuple of content tokens " +
 					"{plain,%,%s%d,100%,%!v(,\",\\,\\n,\\x00,\\x7f,'a b',<&>,255x%, literal \\u003c / \\u0026\\u003e / \\\\n\\\" / \\u00e9 / &lt;} in user/port/rem_addr/argument, argument counts {0,1,2,255}; plane 3 (full reference server over the scripted network): " +
 					"all arrival orders of length <= 3 over {start,stop,watchdog@1,watchdog-update@3,bad-flags,undecodable} x {fresh session id, the previous event's session id with the next client sequence number} x users {with accounter, via group, unknown, without accounter}, " +
 					"checking that the sink call precedes the reply's write on the global event clock; plane 4 (engine E2): two connections sending accounting records concurrently under the controlled scheduler with statement-level points in the accounter, every schedule with <= 1 (quick) / 2 (thorough) deviations. Oracle: a SUCCESS reply implies exactly one sink call whose rendered line (format and arguments as log.Logger would print them) " +
 					"JSON-decodes to exactly the request's fields; undecodable / stop+watchdog / unknown user / no accounter are answered ERROR. distinct_nontrivial = distinct requests answered SUCCESS (by content hash)",
-				Assumptions: []string{"the sink is rendered with fmt.Sprintf(format, args...), which is what log.Logger.Printf does"}}
+				Assumptions: []string{"'cannot be decoded' is taken as: the announced user/port/rem_addr/argument lengths exceed the octets present; a body that ends inside the fixed part or the argument-length table (which the library decodes with zero-length arguments) is not judged", "the sink is rendered with fmt.Sprintf(format, args...), which is what log.Logger.Printf does"}}
 		},
 		Workers:      constInt(16, 16),
 		SchedWorkers: constInt(1, 1),
@@ -48,6 +48,39 @@ type c12Case struct {
 	Msg  msgJSON `json:"msg"`
 	Seq  int     `json:"seq"`
 	Hist []c12Ev `json:"history,omitempty"`
+	// Raw: a request body (hex) that is NOT laid out as an accounting request (plane 1b)
+	Raw string `json:"raw_body,omitempty"`
+}
+
+// c12Raw hands the accounter a body that cannot be decoded - a well-formed request cut short or with a length octet
+// that announces more than follows: it must be answered ERROR and nothing may reach the sink.
+func c12Raw(c *Ctx, h tq.Handler, sink *sinkRec, body []byte, seq int) {
+	if _, cl := ref.AcctRequest.Decode(body); cl != ref.Inconsistent {
+		// only bodies whose announced field lengths exceed the octets that follow are judged: a body that stops inside
+		// its fixed part or its length table (the library reads the missing length octets as zero) is left open
+		return
+	}
+	c.R.Eval()
+	c.R.Distinct(evid.Hash("raw", body, seq))
+	cs := c12Case{Raw: fmt.Sprintf("%x", body), Seq: seq}
+	sink.take()
+	resp := &recResp{}
+	req := tq.Request{Header: tq.Header{Version: tq.Version{MajorVersion: 0xc}, Type: tq.Accounting, SeqNo: tq.SequenceNumber(seq), SessionID: 12}, Body: append([]byte{}, body...), Context: context.Background()}
+	if p := safely(func() { h.Handle(resp, req) }); p != "" {
+		c.R.Violate("raw/panic", "accounter panicked on an undecodable body: "+p, cs)
+		return
+	}
+	calls := sink.take()
+	status := -1
+	if len(resp.replies) == 1 {
+		if rep, ok := resp.replies[0].(*tq.AcctReply); ok {
+			status = int(rep.Status)
+		}
+	}
+	if status != int(tq.AcctReplyStatusError) || len(calls) != 0 {
+		c.R.ViolateMin("raw/undecodable-acknowledged", fmt.Sprintf("a body that is not laid out as an accounting request (%d octets: %s) was answered with %d replies, status %d, and %d sink records; it must be answered ERROR and leave no record",
+			len(body), hx(body), len(resp.replies), status, len(calls)), cs, len(body))
+	}
 }
 
 type c12Ev struct {
@@ -195,6 +228,36 @@ func c12Run(c *Ctx) {
 				vals := []int{fl, s.Enums[1].Valid[ep*3%len(s.Enums[1].Valid)], s.Enums[2].Valid[ep*7%16], s.Enums[3].Valid[ep*2%7], s.Enums[4].Valid[ep*4%10]}
 				for _, shape := range []argShape{nil, {9}, {0, 17}} {
 					c12Direct(c, h, sink, build(s, vals, []int{4, 5, 6}, shape), seq)
+				}
+			}
+		}
+	}
+	// plane 1b: undecodable bodies - every truncation of a corpus of well-formed requests and every raised length octet
+	{
+		var corpus [][]byte
+		for _, shape := range []argShape{nil, {9}, {2, 33}, {0, 17, 5}} {
+			for _, lens := range [][]int{{0, 0, 0}, {4, 5, 6}} {
+				b, _ := ref.AcctRequest.Encode(build(s, []int{2, 6, 1, 1, 1}, lens, shape))
+				corpus = append(corpus, b)
+			}
+		}
+		for ci, b := range corpus {
+			job++
+			if !c.Mine(job) {
+				continue
+			}
+			for k := 1; k < len(b); k++ {
+				c12Raw(c, h, sink, b[:len(b)-k], 1)
+			}
+			argc := int(b[8])
+			for off := 5; off < 9+argc; off++ {
+				for _, d := range []int{1, 2, 10, 200} {
+					x := append([]byte{}, b...)
+					if int(x[off])+d > 255 {
+						continue
+					}
+					x[off] += byte(d)
+					c12Raw(c, h, sink, x, 1+2*(ci%2))
 				}
 			}
 		}
@@ -393,6 +456,12 @@ func c12Replay(c *Ctx, raw json.RawMessage) {
 	}
 	sink := &sinkRec{}
 	acct, _ := local.New(&srvx.Logger{}, local.SetLogSink(sink))
+	if cs.Raw != "" {
+		var body []byte
+		fmt.Sscanf(cs.Raw, "%x", &body)
+		c12Raw(c, acct.New(nil), sink, body, cs.Seq)
+		return
+	}
 	_, m := msgFromJSON(cs.Msg)
 	c12Direct(c, acct.New(nil), sink, m, cs.Seq)
 }
